@@ -296,6 +296,9 @@ class C10(PropBase):
             cfg["sel_equity"] = [re.escape(a) for a in sel]
         case = {"op": "run", "kind": kind if not big else "big", "cfg": cfg, "txns": txns,
                 "equity_account": eqa, "msel_equity": sel or []}
+        # the selector may reach the exporter from the command line (`--accounts` replaces the configured list)
+        if sel and rng.random() < 0.3:
+            case["cli_accounts"] = True
         if kind in ("filter", "filter_none", "audit_filter") or (kind == "random" and rng.random() < 0.2):
             nss = sorted(int(t["ts"]["ns"]) for t in txns)
             if kind == "filter_none":
@@ -339,6 +342,8 @@ class C10(PropBase):
 
     def impl_case(self, case):
         c = {"op": "run", "cfg": case.get("cfg", {}), "text": case["text"], "want": ["equity", "balance", "txns"]}
+        if case.get("cli_accounts") and c["cfg"].get("sel_equity"):
+            c["cfg"] = dict(c["cfg"], sel_equity=["zzz:configured:elsewhere"], ov_accounts=c["cfg"]["sel_equity"])
         if any(k in c["cfg"] for k in self.DISPLAY_KEYS):
             c["neutral"] = True
         if case.get("filter") is not None:
